@@ -27,6 +27,8 @@ func init() {
 	engine.RegisterSignature("c13-unescape-surrogates", func(m *engine.Mismatch) bool { return sigUnescape(m, unNoPair) || sigUnescape(m, unLose) })
 	engine.RegisterSignature("c13-decode-input-surrogate-lost", sigDecodeLost)
 	engine.RegisterSignature("c13-literal-surrogate-lost", sigLiteralLost)
+	engine.RegisterSignature("c13-route-surrogate-lost", sigRouteLost)
+	engine.RegisterSignature("c13-tostring-surrogate-lost", sigToStringLost)
 }
 
 func argsOf(m *engine.Mismatch) ([]arg, bool) {
@@ -99,6 +101,9 @@ func sigPowOneNaN(m *engine.Mismatch) bool {
 // F-C13-003: max/min/atan2 return NaN as soon as one argument converts to NaN,
 // without applying ToNumber to the remaining arguments (whose valueOf throws).
 func sigShortCircuit(m *engine.Mismatch) bool {
+	if m.Aux != nil && m.Aux["carriers"] != "" {
+		return sigShortCircuitCarriers(m)
+	}
 	args, ok := argsOf(m)
 	if !ok {
 		return false
@@ -120,6 +125,47 @@ func sigShortCircuit(m *engine.Mismatch) bool {
 		}
 	}
 	return alt == "d:NaN" && m.Observed == alt && strings.HasPrefix(m.Expected, "throw:")
+}
+
+// The same failure mode seen through logging carriers: the conversion log (and the
+// result) equals the model that stops converting at the first NaN.
+func sigShortCircuitCarriers(m *engine.Mismatch) bool {
+	if fn := m.Aux["fn"]; fn != "max" && fn != "min" {
+		return false
+	}
+	byLabel := map[string]*carrier{}
+	for i := range loggingCarriers {
+		byLabel[loggingCarriers[i].label] = &loggingCarriers[i]
+	}
+	for i := range builtinCarriers {
+		byLabel[builtinCarriers[i].label] = &builtinCarriers[i]
+	}
+	var log []string
+	labels := strings.Split(m.Aux["carriers"], ",")
+	for i, l := range labels {
+		num := math.NaN()
+		switch c := byLabel[l]; {
+		case c == nil:
+			f, ok := parseJSNum(strings.TrimPrefix(l, "lit:"))
+			if !ok {
+				return false
+			}
+			num = f
+		case c.logging():
+			p, th, lg := c.defaultValue(i, false)
+			log = append(log, lg...)
+			if th != "" {
+				return false // the alternative model throws like the specification: not this failure mode
+			}
+			num = p.toNumber()
+		default:
+			num = c.bnum
+		}
+		if math.IsNaN(num) {
+			return i < len(labels)-1 && m.Observed == "d:NaN|log:"+strings.Join(log, ",") && m.Observed != m.Expected
+		}
+	}
+	return false
 }
 
 // F-C13-004: atan2(y, x) for y < 0, x < 0 where the quotient y/x underflows to +0:
@@ -167,7 +213,7 @@ func has(s []uint16, c uint16) bool {
 // source literal every \uXXXX escape is decoded on its own, so even the two
 // halves of a pair written as escapes become U+FFFD each.
 func lose(s []uint16, route string) []uint16 {
-	if route != "literal" {
+	if route != "literal" && route != "concat" {
 		return uri.LoseSurrogates(s)
 	}
 	out := make([]uint16, len(s))
@@ -181,7 +227,7 @@ func lose(s []uint16, route string) []uint16 {
 }
 
 func loses(s []uint16, route string) bool {
-	if route != "literal" {
+	if route != "literal" && route != "concat" {
 		return !uri.WellFormed(s)
 	}
 	for _, c := range s {
@@ -221,8 +267,8 @@ func sigEscape(m *engine.Mismatch, mine int) bool {
 		return false
 	}
 	route := m.Aux["route"]
-	if mine == escLose && route == "literal" {
-		return false // surrogate loss in a source literal alone is the parser's finding (c13-literal-surrogate-lost)
+	if mine == escLose && upstreamLoss(route) {
+		return false // surrogate loss upstream of escape (parser, String object, concatenation, join) has its own findings
 	}
 	s := parseHexKey(m.Aux["units"])
 	for f := 1; f < 8; f++ {
@@ -306,7 +352,7 @@ func sigUnescape(m *engine.Mismatch, mine int) bool {
 		return false
 	}
 	route := m.Aux["route"]
-	if mine == unLose && route == "literal" {
+	if mine == unLose && upstreamLoss(route) {
 		return false
 	}
 	s := parseHexKey(m.Aux["units"])
@@ -345,7 +391,42 @@ func lostModel(m *engine.Mismatch) (string, bool) {
 // as U+FFFD.
 func sigDecodeLost(m *engine.Mismatch) bool {
 	fn := m.Aux["fn"]
-	if (fn != "decodeURI" && fn != "decodeURIComponent") || m.Aux["route"] != "u16" {
+	if (fn != "decodeURI" && fn != "decodeURIComponent") || (m.Aux["route"] != "u16" && m.Aux["route"] != "tostring") {
+		return false
+	}
+	alt, ok := lostModel(m)
+	return ok && alt == m.Observed
+}
+
+// upstreamLoss: routes on which the string has lost its surrogates before the
+// built-in is even called.
+func upstreamLoss(route string) bool {
+	switch route {
+	case "literal", "strobj", "array", "concat":
+		return true
+	}
+	return false
+}
+
+// F-C13-011: String wrapper objects, Array join and string concatenation store /
+// build their text as UTF-8: unpaired surrogates (concatenation: every surrogate
+// operand) are U+FFFD before the URI function runs.
+func sigRouteLost(m *engine.Mismatch) bool {
+	switch m.Aux["route"] {
+	case "strobj", "array", "concat":
+	default:
+		return false
+	}
+	alt, ok := lostModel(m)
+	return ok && alt == m.Observed
+}
+
+// F-C13-012: encodeURI / encodeURIComponent convert an object argument with
+// Value.string(): the UTF-16 payload returned by its toString is decoded to UTF-8
+// and a lone surrogate is encoded as U+FFFD instead of raising URIError.
+func sigToStringLost(m *engine.Mismatch) bool {
+	fn := m.Aux["fn"]
+	if m.Aux["route"] != "tostring" || (fn != "encodeURI" && fn != "encodeURIComponent") {
 		return false
 	}
 	alt, ok := lostModel(m)
